@@ -55,7 +55,7 @@ func scramble(v reflect.Value, r *gen.Rng) {
 func c16Workload(e *Env) {
 	r := e.R
 	types := e.Types()
-	n := e.N(30, 500)
+	n := e.N(100, 3000)
 	acc := newFeatAcc()
 	e.Par(len(types), func(i int) {
 		t := types[i]
